@@ -346,3 +346,18 @@ CHECKS["C17"]["rule"] += ("; U+FEFF / U+FFFD / U+FFFE as ordinary text behind ev
 CHECKS["C18"]["rule"] += ("; a fourth controlled family under wrap_column=60, format_multiline_strings=false over two same-shape programs with "
                          "different child lines; c18free: a mode-000 file with the binary run as uid 65534, 150 / 600 files under RLIMIT_NOFILE=64")
 CHECKS["C19"]["rule"] += "; configuration files that are not valid UTF-8, in both file sources"
+
+# ---- additions of round 5
+CHECKS["C06"]["rule"] += "; bodies of 6 000 statements in two layouts"
+CHECKS["C09"]["rule"] += "; the deep-nesting family under tab widths 8 and 4 (indentations beyond 64 and 128 columns)"
+CHECKS["C10"]["rule"] += "; a wrappable call at 265 levels under tab_width 255 (beyond column 65 535)"
+CHECKS["C11"]["rule"] += "; two compound statements with 1 500 (thorough 3 000) long body statements at ten widths"
+CHECKS["C12"]["rule"] += "; a literal that already stands at its target indentation (six blanks) with foreign line ends"
+CHECKS["C15"]["rule"] += "; 32 texts with blank-line runs inside disabled regions and asm blocks, LF / CRLF, every cursor alone"
+CHECKS["C16"]["rule"] += "; two-file states whose names differ only in letter case; content that is undecodable after non-ASCII text"
+CHECKS["C17"]["rule"] += "; a verbatim unterminated last line of 2.8 KB and 30 KB texts with non-ASCII characters across every 16 KiB mark"
+CHECKS["C18"]["rule"] += ("; file kind `undecodable after non-ASCII text`; every batch runs on a thread of its own with a 20 s limit, a batch that "
+                         "does not finish (a worker panicked or blocks for good) is the violation batch-aborted")
+CHECKS["C18"]["assumptions"] = CHECKS["C18"]["assumptions"] + ["the stand-in iterator offers map / any / all with rayon's short-circuit semantics; other adaptors do not compile against it (machinery exit 2, not a verdict)"]
+CHECKS["C19"]["rule"] += ("; a working directory reached through a symbolic link with and without $PWD exported (config above the real directory, a decoy "
+                         "beside the link); integer-looking values for non-integer options through -C")
